@@ -2,6 +2,7 @@ import LyModel.Diff.Lemmas13Merge
 import LyModel.Diff.LemmasRevLit
 import LyModel.Diff.LemmasCancel
 import LyModel.Diff.LemmasMergeEmpty
+import LyModel.Diff.K13Canon
 /-!
 # C13 — the 4 × 4 operation table of `lyd_diff_merge_*`, cell by cell, against the composition of the two applications
 
@@ -209,7 +210,8 @@ theorem merge_rejected_unreachable {S : Schema} {t src : DNode} {e e1 : Option D
 
 /-- A cell equation `cellEff … = seqEff …` at the instance the nodes address means: applying the node the merge produced (or
 nothing, when it was dropped) to a good sibling list gives the same list (up to `normN`) as applying the two nodes one after
-the other. -/
+the other.  SUPERSEDED by `merge_cell_apply_on` (`KeyOrder S` cannot hold when `S` has a keyed list: Props/C13
+`keyOrder_no_keyed_list`; the sibling list `L` may well contain list instances). -/
 theorem merge_cell_apply {S : Schema} {fx : Fixes} (K : KeyOrder S) {o : MergeOpts} {L : List DNode} {t src m : DNode} {mv : Bool}
     {sop cop : Op} {n : Nat} {hp : Bool} (hn : 0 < n) (hgL : goodT S L = true)
     (hleaf : S.isKind t.sid .leaf = true) (htt : t.isTerm = true) (hst : src.isTerm = true) (hss : src.sid = t.sid)
@@ -283,6 +285,22 @@ theorem merge_cell_apply {S : Schema} {fx : Fixes} (K : KeyOrder S) {o : MergeOp
       · -- the merged node was dropped
         simp only [hred, ↓reduceIte, Option.some.injEq] at hcell ⊢
         exact ⟨L, ha1, ha2, rfl, hfin L hgL (fun _ _ _ => rfl) hcell⟩
+
+/-- `merge_cell_apply` under `K13.KeyOrderOn S P` (Diff/K13Ord.lean: the order axioms asked only of nodes satisfying `P`; proved for
+`P = K13.keyedOK S`, Props/C13 `keyOrderOn_keyed`): the sibling list `L` is a good list all of whose nodes satisfy `P` — it may
+contain instances of keyed lists next to the leaf the two diff nodes address. -/
+theorem merge_cell_apply_on {S : Schema} {fx : Fixes} {P : DNode → Bool} (K : K13.KeyOrderOn S P) {o : MergeOpts} {L : List DNode}
+    {t src m : DNode} {mv : Bool} {sop cop : Op} {n : Nat} {hp : Bool} (hn : 0 < n) (hgL : K13.goodT S P L = true)
+    (hleaf : S.isKind t.sid .leaf = true) (htt : t.isTerm = true) (hst : src.isTerm = true) (hss : src.sid = t.sid)
+    (hk : S.isKey t.sid = false) (hkb : KeysBelow S t L)
+    (hm : mergeCell S o sop t cop src = .ok (m, mv))
+    (hmt : (isRedundant S none m).1.isTerm = true) (hms : (isRedundant S none m).1.sid = t.sid)
+    (hcell : cellEff S o sop t cop src (look S L t) = seqEff S t src (look S L t))
+    (hseq : (seqEff S t src (look S L t)).isSome = true) :
+    ∃ L1 L2 L2', applyNode S fx n L hp none t = .ok L1 ∧ applyNode S fx n L1 hp none src = .ok L2 ∧
+      (if (isRedundant S none m).2 then Except.ok L else applyNode S fx n L hp none (isRedundant S none m).1) = .ok L2' ∧
+      normL13 L2' = normL13 L2 :=
+  K13.merge_cell_apply K hn hgL hleaf htt hst hss hk hkb hm hmt hms hcell hseq
 
 /-! ## computed diffs satisfy the hypotheses of the tree-level law -/
 
@@ -363,7 +381,8 @@ theorem merge_apply_second_empty (S : Schema) (o : MergeOpts) (fx : Fixes) (A B 
   simp [mergeApply, hself, mergeDiff, mergeKids_nil, Except.bind, applyD, h1]
 
 /-- `A → B → A` with the reversed diff as the second one: the merged diff is empty (`merge_cancel`) and applying it to `A`
-gives what the two diffs give one after the other (`reverse_apply_diff`) -/
+gives what the two diffs give one after the other (`reverse_apply_diff`).  SUPERSEDED by `merge_apply_reverse_on` and the
+hypothesis-free `merge_apply_reverse_keyed` (`KeyOrder S` cannot hold when `S` has a keyed list). -/
 theorem merge_apply_reverse {S : Schema} {o : MergeOpts} {fx : Fixes} (K : KeyOrder S) {A B : List DNode}
     (hA : wfForest S A = true) (hB : wfForest S B = true) :
     ∃ B' R M C' A', apply S A (diff S true A B) fx = .ok B' ∧ reverse S (diff S true A B) = .ok R ∧
@@ -378,6 +397,123 @@ theorem merge_apply_reverse {S : Schema} {o : MergeOpts} {fx : Fixes} (K : KeyOr
   refine ⟨B', R', [], A, A', h1, h2, h3, hM, rfl, ?_⟩
   rw [dataEqL_iff_norm]
   exact h4.symm
+
+/-- `merge_apply_reverse` under `K13.KeyOrderOn S P` -/
+theorem merge_apply_reverse_on {S : Schema} {o : MergeOpts} {fx : Fixes} {P : DNode → Bool} (K : K13.KeyOrderOn S P)
+    {A B : List DNode} (hA : wfForest S A = true) (hB : wfForest S B = true) (hpA : K13.allPL P A = true)
+    (hpB : K13.allPL P B = true) :
+    ∃ B' R M C' A', apply S A (diff S true A B) fx = .ok B' ∧ reverse S (diff S true A B) = .ok R ∧
+      apply S B' R fx = .ok A' ∧ mergeDiff o S (diff S true A B) R = .ok M ∧ apply S A M fx = .ok C' ∧
+      dataEqL true C' A' = true := by
+  obtain ⟨B', R, A', h1, _, h2, _, h3, h4⟩ :=
+    K13.reverse_roundtrip (fx := fx) K (K13.goodT_of_wfForest A hA hpA) (K13.exactDiff_diff K.pinv A B hA hB hpA hpB)
+  obtain ⟨R', hR', hM⟩ := merge_cancel_diff (o := o) hA hB
+  rw [h2] at hR'
+  have : R' = R := (Except.ok.inj hR').symm
+  subst this
+  refine ⟨B', R', [], A, A', h1, h2, h3, hM, rfl, ?_⟩
+  rw [dataEqL_iff_norm]
+  exact h4.symm
+
+/-- **`merge_apply_reverse` with no order hypothesis**, keyed lists included: every schema whose keys are leaves and whose enum
+values are distinct (`K13.schemaOK`), all well-formed `A`, `B` with canonical key / leaf-list values (`K13.canonT`) -/
+theorem merge_apply_reverse_keyed {S : Schema} {o : MergeOpts} {fx : Fixes} (hS : K13.schemaOK S = true) {A B : List DNode}
+    (hA : wfForest S A = true) (hB : wfForest S B = true) (hcA : K13.canonT S A = true) (hcB : K13.canonT S B = true) :
+    ∃ B' R M C' A', apply S A (diff S true A B) fx = .ok B' ∧ reverse S (diff S true A B) = .ok R ∧
+      apply S B' R fx = .ok A' ∧ mergeDiff o S (diff S true A B) R = .ok M ∧ apply S A M fx = .ok C' ∧
+      dataEqL true C' A' = true :=
+  merge_apply_reverse_on (K13.keyOrderOn_keyed hS) hA hB (K13.keyedT_of_wf hA hcA) (K13.keyedT_of_wf hB hcB)
+
+/-- the hypothesis `KeysDistinguished` of `merge_apply_first_empty` / `merge_apply_second_empty` / `diff_chain_exact` (C06's) holds
+for well-formed trees with canonical values, for every `schemaOK` schema -/
+theorem keysDistinguished_keyed {S : Schema} (hS : K13.schemaOK S = true) {A B : List DNode} (hA : wfForest S A = true)
+    (hB : wfForest S B = true) (hcA : K13.canonT S A = true) (hcB : K13.canonT S B = true) : KeysDistinguished S (A ++ B) :=
+  K13.keysDistinguished_of_keyOrderOn (K13.keyOrderOn_keyed hS) (A ++ B) (K13.wfL_append hA hB)
+    (by rw [K13.allPL_append, K13.keyedT_of_wf hA hcA, K13.keyedT_of_wf hB hcB]; rfl)
+
+/-- `merge_apply_first_empty` with no hypothesis on the `sort` callbacks -/
+theorem merge_apply_first_empty_keyed {S : Schema} (hS : K13.schemaOK S = true) (o : MergeOpts) (fx : Fixes) (A C : List DNode)
+    (hA : wfForest S A = true) (hC : wfForest S C = true) (hcA : K13.canonT S A = true) (hcC : K13.canonT S C = true) :
+    mergeDiff o S (diff S true A A) (diff S true A C) = .ok ((diff S true A C).map cop) ∧
+      ∃ C', mergeApply S true o A A C fx = .ok C' ∧ dataEqL true C' C = true :=
+  merge_apply_first_empty S o fx A C hA hC (keysDistinguished_keyed hS hA hC hcA hcC)
+
+/-- `merge_apply_second_empty` with no hypothesis on the `sort` callbacks -/
+theorem merge_apply_second_empty_keyed {S : Schema} (hS : K13.schemaOK S = true) (o : MergeOpts) (fx : Fixes) (A B : List DNode)
+    (hA : wfForest S A = true) (hB : wfForest S B = true) (hcA : K13.canonT S A = true) (hcB : K13.canonT S B = true) :
+    ∃ C', mergeApply S true o A B B fx = .ok C' ∧ dataEqL true C' B = true :=
+  merge_apply_second_empty S o fx A B hA hB (keysDistinguished_keyed hS hA hB hcA hcB)
+
+/-- computed diffs chain exactly, relative to `keyedOK` — the hypotheses under which a tree-level `merge_apply_partial` can use
+`merge_cell_apply_on` -/
+theorem diff_chain_exact_keyed {S : Schema} (hS : K13.schemaOK S = true) (fx : Fixes) (A B C : List DNode)
+    (hA : wfForest S A = true) (hB : wfForest S B = true) (hC : wfForest S C = true) (hcA : K13.canonT S A = true)
+    (hcB : K13.canonT S B = true) (hcC : K13.canonT S C = true) :
+    K13.exactDiff S (K13.keyedOK S) A (diff S true A B) = true ∧
+    ∃ B', apply S A (diff S true A B) fx = .ok B' ∧ K13.goodT S (K13.keyedOK S) B' = true ∧ dataEqL true B' B = true ∧
+      K13.exactDiff S (K13.keyedOK S) B' (diff S true B C) = true := by
+  have K := K13.keyOrderOn_keyed hS
+  have hpA := K13.keyedT_of_wf hA hcA
+  have hpB := K13.keyedT_of_wf hB hcB
+  have hpC := K13.keyedT_of_wf hC hcC
+  obtain ⟨B', h1, h2, h3, h4⟩ := K13.diff_chain_exact K fx A B C hA hB hC hpA hpB hpC
+  exact ⟨K13.exactDiff_diff K.pinv A B hA hB hpA hpB, B', h1, h2, (dataEqL_iff_norm B' B).mpr h3, h4⟩
+
+/-- the keyed list of `merge_cancel_diff` above (string key), two instances differing in the key, nested changes: the old
+hypothesis `KeyOrder mcS` is unsatisfiable, the new statement applies -/
+example : K13.schemaOK mcS = true ∧ K13.canonT mcS mcA = true ∧ K13.canonT mcS mcB = true := by decide +kernel
+example : ∃ B' R M C' A', apply mcS mcA (diff mcS true mcA mcB) = .ok B' ∧ reverse mcS (diff mcS true mcA mcB) = .ok R ∧
+    apply mcS B' R = .ok A' ∧ mergeDiff { defaults := true } mcS (diff mcS true mcA mcB) R = .ok M ∧ apply mcS mcA M = .ok C' ∧
+    dataEqL true C' A' = true :=
+  merge_apply_reverse_keyed (by decide +kernel) (by decide +kernel) (by decide +kernel) (by decide +kernel) (by decide +kernel)
+example : KeysDistinguished mcS (mcA ++ mcB) :=
+  keysDistinguished_keyed (by decide +kernel) (by decide +kernel) (by decide +kernel) (by decide +kernel) (by decide +kernel)
+
+/-! non-vacuity of `merge_cell_apply_on`: the leaf `top` next to the instances of the keyed list `l` (the sibling list `mcA`),
+`t -> u` merged with `u -> w` -/
+def mcT : DNode := nReplace 4 {} (bs "u") false (bs "t")
+def mcSrc : DNode := nReplace 4 {} (bs "w") false (bs "u")
+/-- the node the cell (replace, replace) produces for them -/
+def mcM : DNode × Bool := match mergeCell mcS {} .replace mcT .replace mcSrc with | .ok p => p | .error _ => (mcT, false)
+
+theorem mcM_spec : mergeCell mcS {} .replace mcT .replace mcSrc = .ok (mcM.1, mcM.2) := by
+  have h : (mergeCell mcS {} .replace mcT .replace mcSrc).toBool = true := by decide +kernel
+  unfold mcM
+  cases hm : mergeCell mcS {} .replace mcT .replace mcSrc with
+  | ok p => rfl
+  | error e => rw [hm] at h; exact absurd h (by simp [Except.toBool])
+
+theorem mc_look_top : look mcS mcA mcT = some (.term 4 {} [] (bs "t")) := by
+  have h1 : ∀ k ks, matchP mcS mcT (mcL k ks) = false := by
+    intro k ks
+    simp [matchP, mcT, nReplace, mcL, DNode.sid]
+  have h2 : matchP mcS mcT (.term 4 {} [] (bs "t")) = true := matchP_leaf (by decide +kernel) rfl
+  simp [look, mcA, List.find?, h1, h2]
+
+example : ∃ L1 L2 L2', applyNode mcS {} 1 mcA false none mcT = .ok L1 ∧ applyNode mcS {} 1 L1 false none mcSrc = .ok L2 ∧
+    (if (isRedundant mcS none mcM.1).2 then Except.ok mcA
+      else applyNode mcS {} 1 mcA false none (isRedundant mcS none mcM.1).1) = .ok L2' ∧
+    normL13 L2' = normL13 L2 := by
+  have hleaf : mcS.isKind 4 .leaf = true := by decide +kernel
+  refine merge_cell_apply_on (K13.keyOrderOn_keyed (by decide +kernel)) (by decide) (by decide +kernel) hleaf rfl rfl rfl
+    (by decide +kernel) ?_ mcM_spec (by decide +kernel) (by decide +kernel) ?_ ?_
+  · intro k hk
+    have : keysOf mcS mcA = [] := by decide +kernel
+    rw [this] at hk; cases hk
+  · rw [mc_look_top]
+    exact merge_cell_replace_replace (o := {}) hleaf {} {} {} [] (bs "u") (bs "w") (bs "t") (by decide +kernel) (by decide +kernel)
+  · rw [mc_look_top]
+    decide +kernel
+
+example : ∃ C', mergeApply mcS true {} mcA mcA mcB = .ok C' ∧ dataEqL true C' mcB = true :=
+  (merge_apply_first_empty_keyed (by decide +kernel) {} {} mcA mcB (by decide +kernel) (by decide +kernel) (by decide +kernel)
+    (by decide +kernel)).2
+example : ∃ C', mergeApply mcS true {} mcA mcB mcB = .ok C' ∧ dataEqL true C' mcB = true :=
+  merge_apply_second_empty_keyed (by decide +kernel) {} {} mcA mcB (by decide +kernel) (by decide +kernel) (by decide +kernel)
+    (by decide +kernel)
+example : K13.exactDiff mcS (K13.keyedOK mcS) mcA (diff mcS true mcA mcB) = true :=
+  (diff_chain_exact_keyed (by decide +kernel) {} mcA mcB mcB (by decide +kernel) (by decide +kernel) (by decide +kernel)
+    (by decide +kernel) (by decide +kernel) (by decide +kernel)).1
 
 example : ∃ C', mergeApply mcS true { defaults := true } mcA mcA mcB = .ok C' ∧ dataEqL true C' mcB = true :=
   (merge_apply_first_empty mcS _ {} mcA mcB (by decide +kernel) (by decide +kernel)
@@ -395,8 +531,8 @@ example : ∃ C', mergeApply mcS true {} mcA mcB mcB = .ok C' ∧ dataEqL true C
 --   second diff sets is not default-flagged (`hnd` of `merge_cell_none_replace`: true for validated data, where a leaf that carries
 --   the flag has its one schema default value; NOT implied by `goodT` / `wfForest`, which allow the flag on any value — over those
 --   trees the statement needs this as an extra hypothesis on `C`); all other accepted cells: none.  The six rejected cells are
---   unreachable (`merge_rejected_unreachable`).  `KeyOrder S` (needed by `merge_cell_apply`) restricts all of this to schemas
---   without keyed lists (Props/C13 `keyOrder_no_keyed_list`).
+--   unreachable (`merge_rejected_unreachable`).  The order hypothesis is no obstacle any more: `merge_cell_apply_on` needs
+--   `K13.KeyOrderOn S P`, which holds for `P = K13.keyedOK S` (Props/C13 `keyOrderOn_keyed`), keyed lists included.
 --   Proved: every leaf cell (`merge_cell_*`, `merge_cancel_leaf`), the link to `applyNode` (`merge_cell_apply`), the
 --   unreachability of the rejected cells, the agreement of the table with the source (Props/C13.lean), and that computed diffs
 --   meet the hypotheses (`diff_chain_exact`), and the whole recursion of `mergeR` for the pairs (node, reversed node)
